@@ -61,8 +61,11 @@ def registry(cid, tier='thorough'):
     Z = Z_expr(cid, 'key_priv', 'key_pub')
     reg.add(Contract(D + '_compute_ecdh', params={'key_priv': OKEY, 'key_pub': OKEY}, requires=['key_priv._d is not None'],
                      raises={'ValueError': ('iff', neutral_test(cid, Z))},
-                     ensures={'Z': 'bytes(result) == old(%s)' % z_bytes(cid, Z), 'len': 'len(result) == %d' % SK.curve_bytes(cid)},
-                     modifies=['key_pub._point'], inline=inl, result='bytes'))
+                     ensures={'Z': 'bytes(result) == old(%s)' % z_bytes(cid, Z), 'len': 'len(result) == %d' % SK.curve_bytes(cid),
+                              # the only write is the cache of the peer's public point: its value is the point the key denoted before
+                              'cache': 'key_pub._point is not None and key_pub._point._point._raw_pointer.%s == old(%s)' % (KE.gfield(cid), KE.Q_expr(cid, 'key_pub'))},
+                     on_raise={'ValueError': ['key_pub._point is not None and key_pub._point._point._raw_pointer.%s == old(%s)' % (KE.gfield(cid), KE.Q_expr(cid, 'key_pub'))]},
+                     modifies=['key_pub._point'], options={'on_raise_modifies': ['key_pub._point']}, inline=inl, result='bytes'))
     # symmetry: party A holds (dA, QB), party B holds (dB, QA) with QA = dA*G, QB = dB*G: both obtain the same Z, or both are refused
     G = KE.G_expr(cid)
     mont = cid in (8, 9)
@@ -86,7 +89,30 @@ def registry(cid, tier='thorough'):
     Zs = '(%s if (%s and %s) else b"")' % (zs('static_priv', 'static_pub'), sp, spub)
     Ze = '(%s if (%s and %s) else (%s if (%s and %s) else (%s if (%s and %s) else b"")))' % (
         zs('eph_priv', 'eph_pub'), ep, epub, zs('eph_priv', 'static_pub'), ep, spub, zs('static_priv', 'eph_pub'), epub, sp)
-    reg._dh = {'Zs': Zs, 'Ze': Ze}
+    def neutral(priv, pub):
+        return neutral_test(cid, Z_expr(cid, 'kwargs["%s"]' % priv, 'kwargs["%s"]' % pub))      # raises conditions are read in the entry state
+    not_private = ' or '.join('(%s and kwargs["%s"]._d is None)' % (has(k), k) for k in ('static_priv', 'eph_priv'))
+    n_priv = '(int(%s) + int(%s))' % (sp, ep)
+    n_pub = '(int(%s) + int(%s))' % (spub, epub)
+    too_few = '(%s + %s < 2 or %s == 0 or %s == 0)' % (n_priv, n_pub, n_priv, n_pub)
+    mode_bad = '(%s and %s and (%s != %s))' % (ep, epub, sp, spub)             # C(2e, 1s) is not a scheme of SP 800-56A
+    zs_neutral = '(%s and %s and %s)' % (sp, spub, neutral('static_priv', 'static_pub'))
+    ze_neutral = '((%s and %s and %s) or (not (%s and %s) and %s and %s and %s) or (not (%s and %s) and not (%s and %s) and %s and %s and %s))' % (
+        ep, epub, neutral('eph_priv', 'eph_pub'), ep, epub, ep, spub, neutral('eph_priv', 'static_pub'),
+        ep, epub, ep, spub, epub, sp, neutral('static_priv', 'eph_pub'))
+    shapes = []
+    keys4 = ('static_priv', 'static_pub', 'eph_priv', 'eph_pub')
+    for mask in range(16):
+        items = ['%s:%s' % (k, OKEY) for i, k in enumerate(keys4) if mask >> i & 1]
+        shapes.append('dict(%s)' % ', '.join(items + ['kdf:any:callable:kdf']))
+    shapes.append('dict(static_priv:%s, static_pub:%s)' % (OKEY, OKEY))            # no kdf
+    reg.add(Contract(D + 'key_agreement', params={'kwargs': '|'.join(shapes)},
+                     # the keys passed in are keys the library handed out (object invariant of EccKey; not implied for members of **kwargs)
+                     requires=['("%s" not in kwargs) or valid(kwargs["%s"])' % (k, k) for k in keys4],
+                     raises={'ValueError': ('iff', '"kdf" not in kwargs or (not (%s) and (%s or %s or %s or %s))' % (not_private, too_few, zs_neutral, mode_bad, ze_neutral)),
+                             'TypeError': ('iff', '"kdf" in kwargs and (%s)' % not_private)},
+                     ensures={'Z': 'result == spec.keys.kdf_out(%s + %s)' % (Ze, Zs)},
+                     modifies=None, inline=inl, result='bytes'))
     return KE.finish(reg)
 
 
@@ -97,4 +123,7 @@ def units(prop, tier):
         for cid in EC.ALL_CIDS:
             out.append(pyvc_unit(prop, 'dh.ecdh.%s' % EC.LABEL[cid], lambda cid=cid: registry(cid, tier),
                                  [D + '_compute_ecdh', H + 'ecdh_both_parties']))
+            # the role matrix is curve-independent Python: the quick tier runs it on one curve of each encoding family
+            out.append(pyvc_unit(prop, 'dh.agreement.%s' % EC.LABEL[cid], lambda cid=cid: registry(cid, tier), [D + 'key_agreement'], weight=4,
+                                 tiers=('quick', 'thorough') if cid in (3, 8) else ('thorough',)))
     return out
